@@ -1096,6 +1096,32 @@ def alt_rep_family(seed, n, maxlen=4, budget=5000):
     return out
 
 
+def edge_family(seed, n, maxlen=2, budget=None):
+    """spellings at the edges, small alphabets by construction (no trimming): (A) several short names per item inside
+    bundles, (B) an attached value that is empty (`--name=`, `-n=`; given to a flag: `--verbose=`, `-vv=`), (C) values
+    that are not text"""
+    out = []
+    for i in range(n):
+        k = i % 3
+        tail = [postail(pos("p0", "opt")), NOTAIL, postail(pos("p0", "many"))][(i // 3) % 3]
+        if k == 0:
+            named = [sw("s0", "-v", "-l"), rf("r0", "count", "-d", "-D")] + ([ar("a0", "opt", "str", "-n", "-N")] if (i // 3) % 2 else [])
+            d = mkdef(f"edge{seed}_{i}", level(named, tail), maxlen=maxlen, extras=(), spells=("sep", "glued"), words=("x",), clusters=True)
+        elif k == 1:
+            a = ar("a0", ["one", "opt", "many"][(i // 3) % 3], ["str", "int", "os"][(i // 9) % 3], "-n", "--name")
+            named = [sw("s0", "-v", "--verbose"), a]
+            d = mkdef(f"edge{seed}_{i}", level(named, tail), maxlen=maxlen, extras=("dd",) if (i // 3) % 2 else (), spells=("sep", "eq"),
+                      words=("x",), eqvals=("", "x"), clusters=True)
+            d["alpha"]["flageq"] = True
+        else:
+            a = ar("a0", ["one", "opt", "many"][(i // 3) % 3], ["str", "int", "os", "path"][(i // 3) % 4], "-n", "--name")
+            # (no `--` here: the specification knows non-text values by their spelling, not `--name=<bytes>` as a word)
+            d = mkdef(f"edge{seed}_{i}", level([a, sw("s0", "-v")], tail), maxlen=maxlen, extras=(), spells=("sep", "eq"),
+                      words=("%FF", "x"), eqvals=("%FF", "x"), clusters=False)
+        out.append(d)
+    return out
+
+
 # ---------------------------------------------------------------- batteries
 def battery_family(seed, n, maxlen=3, budget=6000):
     """`verbose_and_quiet_by_number` / `verbose_by_slice` (two neighbouring repeated flags read as one number) among other
